@@ -452,6 +452,23 @@ def run_case(case):
         so, sd = str(obj), str(dec)
         if so != sd:
             out.append(("C02:str:" + fam, "%s: str %r vs decoded %r" % (where, so, sd)))
+        # a copy of the object (copy.copy / copy.deepcopy / a pickle round trip, as a queue between processes makes) is
+        # the same command: same class, same frame, same text
+        if case.get("copies", (len(so) + obj.frame.as_integer) % 4 == 0) and not case.get("intform"):
+            import copy
+            import pickle
+            for how, fn in (("copy.copy", copy.copy), ("copy.deepcopy", copy.deepcopy),
+                            ("pickle round trip", lambda o: pickle.loads(pickle.dumps(o)))):
+                try:
+                    c = fn(obj)
+                except Exception as e:  # noqa
+                    out.append(("C02:copy-raised:%s:%s" % (fam, type(e).__name__), "%s: %s raised %r" % (where, how, e)))
+                    break
+                if type(c) is not type(obj) or len(c.frame) != len(obj.frame) or c.frame.as_integer != obj.frame.as_integer \
+                        or str(c) != so:
+                    out.append(("C02:copy-differs:" + fam, "%s: %s gives %s with frame %#x (%s), the original is %s with frame %#x (%s)"
+                                % (where, how, type(c).__name__, c.frame.as_integer, c, type(obj).__name__, obj.frame.as_integer, so)))
+                    break
     except Exception as e:  # noqa
         if library_frame(e.__traceback__) is None:
             raise
